@@ -79,6 +79,7 @@ FAMILIES = {
     "renamed-file-mode-change-lost": "a file renamed and chmod-ed in one revision (same text) keeps its old executable bit on the remote",
     "rename-across-ignore-boundary-nosuchfile": "a rename with exactly one side ignored addresses a remote path that was never uploaded: NoSuchFile",
     "rename-across-ignore-boundary-moves-ignored-content": "a directory renamed from an ignored to a non-ignored path takes the ignored remote content below it along: the remote gains paths the tree does not have",
+    "kind-change-below-renamed-directory-nosuchfile": "an entry changes kind while an ancestor directory is renamed in the same delta: the old object is deleted at its OLD path after the renames are finished: NoSuchFile",
     "rename-onto-deleted-directory-readerror": "an entry takes the path of a directory removed in the same delta; the deferred rmdir runs after finish_renames: ReadError",
     "delete-directory-with-ignored-content-directorynotempty": "a removed directory still holds ignored remote content: the deferred rmdir raises DirectoryNotEmpty",
     "full-upload-keeps-stale-paths": "upload --full onto an existing remote never deletes paths that left the tree",
@@ -152,7 +153,7 @@ K = {"file": "f", "directory": "d", "symlink": "l"}
 def enc_delta(d):
     rm = ",".join("%s:%s" % (c.path[0], K[c.kind[0]]) for c in d.removed) or "-"
     rn = ",".join("%s:%s:%s" % (c.path[0], c.path[1], "T" if c.changed_content else "F") for c in d.renamed) or "-"
-    kc = ",".join("%s:%s:%s" % (c.path[1], K[c.kind[0]], K[c.kind[1]]) for c in d.kind_changed) or "-"
+    kc = ",".join("%s:%s:%s:%s" % (c.path[0], c.path[1], K[c.kind[0]], K[c.kind[1]]) for c in d.kind_changed) or "-"
     ad = ",".join(c.path[1] for c in list(d.added) + list(d.copied)) or "-"
     md = ",".join(c.path[1] for c in d.modified) or "-"
     return "&".join([rm, rn, kc, ad, md])
@@ -204,7 +205,7 @@ def mutate(rng, wt):
         paths = sorted(p for p in wt.all_versioned_paths() if p and p != IGNFILE)
     dirs = [""] + [p for p in paths if _isdir(root, p)]
     op = rng.choice(["add", "add", "rm", "mv", "mv", "swap", "mod", "kind", "chmod", "nested", "nested2",
-                     "into-new", "retarget", "chain"])
+                     "into-new", "retarget", "chain", "dir+edit", "dir+edit", "dirswap+edit", "dirreplace+edit"])
 
     def newpath():
         d = rng.choice(dirs)
@@ -324,6 +325,58 @@ def mutate(rng, wt):
                     wt.rename_one(kid, nd)
                     wt.rename_one(d, nd + "/" + os.path.basename(d))
                 return (op, d, nd, kid)
+        if op in ("dir+edit", "dirswap+edit", "dirreplace+edit"):
+            # a directory is renamed / swapped / replaced AND a file below it (depth 1 or 2) is edited or
+            # chmod-ed in the same commit: the file is "modified" at a path that differs from its old one
+            below = lambda d: [q for q in paths if q.startswith(d + "/") and _isfile(root, q)]
+            ds = [p for p in paths if _isdir(root, p) and below(p)]
+            if not ds:
+                # make one: d/<name> and d/<sub>/<name>
+                d = newpath()
+                if not free(d):
+                    return None
+                os.mkdir(os.path.join(root, d))
+                sub = d + "/" + rng.choice(NAMES)
+                os.mkdir(os.path.join(root, sub))
+                for q in (d + "/" + rng.choice([n for n in NAMES if d + "/" + n != sub]), sub + "/" + rng.choice(NAMES)):
+                    with open(os.path.join(root, q), "w") as f:
+                        f.write("c%d\n" % rng.randint(0, 99))
+                wt.smart_add([os.path.join(root, d)])
+                return ("add-deep", d)
+            d = rng.choice(ds)
+            victim = rng.choice(below(d))
+            rel = victim[len(d) + 1:]
+            if op == "dir+edit":
+                nd = newpath()
+                if nd == d or nd.startswith(d + "/") or not free(nd):
+                    return None
+                wt.rename_one(d, nd)
+            else:
+                others = [p for p in paths if p != d and _isdir(root, p) and not p.startswith(d + "/") and not d.startswith(p + "/")]
+                if not others:
+                    return None
+                o = rng.choice(others)
+                if op == "dirswap+edit":
+                    wt.rename_one(d, "swaptmp")
+                    wt.rename_one(o, d)
+                    wt.rename_one("swaptmp", o)
+                    nd = o
+                else:                           # d -> fresh name, o -> d
+                    nd = newpath()
+                    if nd in (d, o) or nd.startswith(d + "/") or nd.startswith(o + "/") or not free(nd):
+                        return None
+                    wt.rename_one(d, nd)
+                    wt.rename_one(o, d)
+            full = os.path.join(root, nd, rel)
+            if rng.random() < 0.5:
+                with open(full, "a") as f:
+                    f.write("e%d\n" % rng.randint(0, 99))
+                how = "edit"
+            else:
+                os.chmod(full, os.stat(full).st_mode ^ 0o111)
+                how = "chmod"
+            ctx_depth = rel.count("/") + 1
+            return (op, d, nd, how, "depth%d" % ctx_depth)
         if op == "into-new" and paths:
             s = rng.choice(paths)
             nd = newpath()
@@ -396,16 +449,39 @@ def probe_variant(ctx):
         _VARIANT[0] += "S"
     except Exception:   # noqa: BLE001
         pass
+    # third probe: a kind change below a renamed directory
+    os.unlink(r + "/e/g")
+    os.symlink("t2", r + "/e/g")
+    wt.rename_one("e", "b")
+    r4 = wt.commit("4")
+    try:
+        BzrUploader(wt.branch, t2, io.StringIO(), repo.revision_tree(r3), r3, quiet=True).upload_full_tree()
+        BzrUploader(wt.branch, t2, io.StringIO(), repo.revision_tree(r4), r4, quiet=True).upload_tree()
+        _VARIANT[0] += "K"
+    except Exception:   # noqa: BLE001
+        pass
+    ctx.extra["kind_change_deletes_at"] = "new path" if _VARIANT[0].endswith("K") else "old path (as found)"
     shutil.rmtree(remote2, ignore_errors=True)
-    ctx.extra["symlink_upload"] = "robust" if _VARIANT[0].endswith("S") else "as-found"
+    ctx.extra["symlink_upload"] = "robust" if "S" in _VARIANT[0] else "as-found"
     shutil.rmtree(r, ignore_errors=True)
     shutil.rmtree(remote, ignore_errors=True)
     ctx.extra["rename_discipline"] = "children-first" if _VARIANT[0].startswith("C") else "as-found (parents staged first)"
 
 
+def _under(p, roots):
+    return any(p == r or p.startswith(r + "/") for r in roots)
+
+
 def classify(mode, err, delta, ents, before, names, got, exp, from_kinds):
-    """family slug computed from the concrete input, or None"""
+    """family slug computed from the concrete input, or None.  Every family is
+    narrow: for uploads that did not raise it must account for ALL the paths on
+    which remote and tree differ; and run() keeps a family only if the real
+    outcome (error kind + complete remote listing) is exactly what the model of
+    the uploader predicts for this input - a known finding is "the code as
+    modelled", anything else is a new violation."""
     tree = dict(ents)
+    diff = set(got) ^ set(exp) | {p for p in set(got) & set(exp) if got[p] != exp[p]}
+
     ren = [(c.path[0], c.path[1]) for c in delta.renamed
            if not (is_ign(names, c.path[0]) and is_ign(names, c.path[1]))] if delta is not None else []
     if mode != "full":
@@ -418,6 +494,8 @@ def classify(mode, err, delta, ents, before, names, got, exp, from_kinds):
                     if parent in added or parent in kc_dirs:
                         return "rename-into-directory-not-yet-created"
                     parent = os.path.dirname(parent)
+        if err == "NoSuchFile" and any(c.path[0] != c.path[1] and not is_ign(names, c.path[1]) for c in delta.kind_changed):
+            return "kind-change-below-renamed-directory-nosuchfile"
         removed_dirs = {c.path[0] for c in delta.removed if c.kind[0] == "directory" and not is_ign(names, c.path[0])}
         if err == "ReadError" and any(n in removed_dirs for _, n in ren):
             return "rename-onto-deleted-directory-readerror"
@@ -432,13 +510,15 @@ def classify(mode, err, delta, ents, before, names, got, exp, from_kinds):
             if crossing and extra and all(got.get(p) == v for p, v in exp.items()) \
                     and all(any(p.startswith(n + "/") for n in crossing) for p in extra):
                 return "rename-across-ignore-boundary-moves-ignored-content"
-        if any(from_kinds.get(c.path[0]) != tree.get(c.path[1], ("?",))[0]
-               or (c.changed_content and tree.get(c.path[1], ("?",))[0] != "f")
-               for c in delta.renamed if (c.path[0], c.path[1]) in ren):
+        as_file = [c.path[1] for c in delta.renamed if (c.path[0], c.path[1]) in ren
+                   and (from_kinds.get(c.path[0]) != tree.get(c.path[1], ("?",))[0]
+                        or (c.changed_content and tree.get(c.path[1], ("?",))[0] != "f"))]
+        if as_file and (err is not None or all(_under(p, as_file) for p in diff)):
             return "renamed-entry-treated-as-file"
-        if err is None and any(not c.changed_content and c.executable[0] != c.executable[1]
-                               and got.get(c.path[1], ("?",))[:2] == exp.get(c.path[1], ("!",))[:2]
-                               for c in delta.renamed if (c.path[0], c.path[1]) in ren):
+        mode_lost = [c.path[1] for c in delta.renamed if (c.path[0], c.path[1]) in ren
+                     and not c.changed_content and c.executable[0] != c.executable[1]
+                     and got.get(c.path[1], ("?",))[:2] == exp.get(c.path[1], ("!",))[:2]]
+        if err is None and mode_lost and all(p in mode_lost for p in diff):
             return "renamed-file-mode-change-lost"
     else:
         if err is None and all(got.get(p) == v for p, v in exp.items()) and set(got) - set(exp):
@@ -447,6 +527,9 @@ def classify(mode, err, delta, ents, before, names, got, exp, from_kinds):
 
 
 _FAMILY_SEEN = {}
+
+
+_PENDING = []      # (line index, case, what, family): emitted by run() once the model has answered
 
 
 def _violation(ctx, case, what, family=None):
@@ -501,13 +584,14 @@ def one_upload(ctx, wt, remote, rid, mode, case):
     got = {p: v for p, v in after.items() if p != IGNFILE and not is_ign(names, p)}
     fam = None
     ok = True
+    pend = None
     if err is not None or got != exp:
         ok = False
         fam = classify(eff_mode, err, delta, ents, before, names, got, exp, from_kinds)
         diff = sorted(set(got) ^ set(exp)) + sorted(p for p in set(got) & set(exp) if got[p] != exp[p])
         what = ("upload raised %s; " % err if err else "") + "remote differs from the uploaded tree at %s" % (
             ["%s: remote %s, tree %s" % (p, (got.get(p) or ("absent",))[0], (exp.get(p) or ("absent",))[0]) for p in diff[:3]],)
-        _violation(ctx, case, what, family=fam)
+        pend = [case, what, fam]
     elif new_marker is None or new_marker[1] != rid:
         ok = False
         _violation(ctx, case, "the marker does not name the uploaded revision")
@@ -530,6 +614,8 @@ def one_upload(ctx, wt, remote, rid, mode, case):
     nontrivial = delta is not None and (len(delta.renamed) >= 1 or sum(len(getattr(delta, k)) for k in
                                         ("removed", "renamed", "kind_changed", "added", "modified")) >= 2)
     ctx.case(line, nontrivial=nontrivial or eff_mode == "full" and len(ents) >= 2)
+    if pend is not None:
+        _PENDING.append([line, impl] + pend)
     return line, impl, ok
 
 
@@ -564,6 +650,19 @@ SCRIPTS = {
                      [("rm!", "a"), ("mkdir", "a"), ("rm!", "b"), ("ln", "b", "t2"), ("rm!", "d"), ("file", "d", "9")]],
     "mode-and-text": [[("file", "a", "1"), ("file", "b", "2")], [("chmod", "a"), ("file", "b", "22")], [("chmod", "a")]],
     "child-replaces-parent": [[("mkdir", "d"), ("file", "d/e", "1")], [("mv", "d/e", "swaptmp"), ("rm", "d"), ("mv", "swaptmp", "d")]],
+    # a file is modified while an ANCESTOR directory is renamed in the same revision: the modified entry's
+    # old and new paths differ; it must be uploaded to the NEW path, after the renames are finished
+    "dir-rename-edit-below": [[("mkdir", "d"), ("file", "d/a", "1")], [("mv", "d", "e"), ("file", "e/a", "11")]],
+    "dir-rename-chmod-below-depth2": [[("mkdir", "d"), ("mkdir", "d/b"), ("file", "d/b/a", "1")],
+                                      [("mv", "d", "e"), ("chmod", "e/b/a")]],
+    "dir-swap-edit-below": [[("mkdir", "d"), ("file", "d/a", "1"), ("mkdir", "e"), ("file", "e/b", "2")],
+                            [("swap", "d", "e"), ("file", "e/a", "11")]],
+    "dir-swap-chmod-below": [[("mkdir", "d"), ("file", "d/a", "1"), ("mkdir", "e"), ("file", "e/a", "2")],
+                             [("swap", "d", "e"), ("chmod", "e/a")]],
+    "dir-replace-edit-below": [[("mkdir", "d"), ("file", "d/a", "1"), ("mkdir", "b"), ("file", "b/f", "2")],
+                               [("mv", "d", "e"), ("mv", "b", "d"), ("file", "e/a", "11")]],
+    "dir-rename-kind-change-below": [[("mkdir", "d"), ("file", "d/a", "1")],
+                                     [("mv", "d", "e"), ("rm!", "e/a"), ("ln", "e/a", "t1")]],
     "rename-modified": [[("file", "a", "1"), ("mkdir", "d")], [("file", "a", "11"), ("mv", "a", "d/b")]],
 }
 
@@ -681,9 +780,26 @@ def run_sequence(ctx, seed, ncommits):
     return out
 
 
+def flush_pending(ctx):
+    """emit the remote-differs-from-tree violations.  A known-finding family is
+    kept only when the real outcome is exactly the model's prediction for the
+    same input (the model reproduces the known defects, and nothing else)."""
+    pend = list(_PENDING)
+    del _PENDING[:]
+    if not pend:
+        return
+    outs = ctx.model([p[0] for p in pend])
+    for (line, impl, case, what, fam), m in zip(pend, outs):
+        if fam is not None and m != impl:
+            ctx.count("family-rejected-outcome-differs-from-model:" + fam)
+            fam = None
+        _violation(ctx, case, what, family=fam)
+
+
 def run(ctx, nseq=None):
     os.umask(0o022)
     _FAMILY_SEEN.clear()
+    del _PENDING[:]
     probe_variant(ctx)
     nseq = nseq or ctx.pick(40, 600)
     cases, lines, impls = [], [], []
@@ -699,6 +815,7 @@ def run(ctx, nseq=None):
             impls.append(impl)
     if lines:
         ctx.diff(cases, lines, impls)
+    flush_pending(ctx)
 
 
 def widen(ctx):
@@ -707,11 +824,13 @@ def widen(ctx):
 
 def replay(ctx, case):
     os.umask(0o022)
+    del _PENDING[:]
     probe_variant(ctx)
     if "script" in case:
         for c, line, impl in run_script(ctx, case["script"]):
             if c["upload"] == case["upload"]:
                 m = ctx.model([line])[0]
+                flush_pending(ctx)
                 return dict(case=c, line=line, impl=impl, model=m, agree=(m == impl),
                             oracle_failures=[v["what"] for v in ctx.violations if v["case"].get("upload") == case["upload"]])
         return dict(case=case, error="upload index not reached")
@@ -723,6 +842,7 @@ def replay(ctx, case):
     for c, line, impl in out:
         if c["upload"] == case["upload"]:
             m = ctx.model([line])[0]
+            flush_pending(ctx)
             return dict(case=c, line=line, impl=impl, model=m, agree=(m == impl),
                         oracle_failures=[v["what"] for v in ctx.violations if v["case"].get("upload") == case["upload"]])
     return dict(case=case, error="upload index not reached")
